@@ -46,7 +46,7 @@ class SGD(Optimizer):
         """
         super().__init__(parameters, lr)
         self.momentum = momentum
-        self.momentum_buffer = []
+        self.momentum_buffer = [None for _ in range(len(parameters))]
         self.nesterov = nesterov
         self.dampening = dampening
         self.maximize = maximize
@@ -59,6 +59,7 @@ class SGD(Optimizer):
         super().step()
         with synapgrad.no_grad():
             for i, p in enumerate(self.parameters):
+                if not p.requires_grad or p._grad is None: continue
                 grad = p._grad
                 
                 # Weight decay
@@ -67,10 +68,10 @@ class SGD(Optimizer):
                 
                 # Momentum
                 if self.momentum != 0:
-                    if self.t > 1:
+                    if self.momentum_buffer[i] is not None:
                         self.momentum_buffer[i] = self.momentum*self.momentum_buffer[i] + (1.0 - self.dampening)*grad
                     else:
-                        self.momentum_buffer.append(grad.copy()) # own storage: p._grad keeps being accumulated into
+                        self.momentum_buffer[i] = grad.copy() # own storage: p._grad keeps being accumulated into
                 
                     # Nesterov
                     if self.nesterov:
@@ -119,6 +120,7 @@ class Adam(Optimizer):
         super().step()
         with synapgrad.no_grad():
             for i, p in enumerate(self.parameters):
+                if not p.requires_grad or p._grad is None: continue
                 grad = -p._grad if self.maximize else p._grad   
                     
                 # Weight decay
@@ -172,6 +174,7 @@ class AdamW(Optimizer):
         super().step()
         with synapgrad.no_grad():
             for i, p in enumerate(self.parameters):
+                if not p.requires_grad or p._grad is None: continue
                 grad = -p._grad if self.maximize else p._grad   
                 
                 # Weight decay
